@@ -28,6 +28,7 @@ type Snap map[string]Entry
 // Snapshot walks fsys from the root. Problems met on the way are returned as a string (empty = clean walk).
 func Snapshot(fsys hackpadfs.FS, mt MTimeSet) (snap Snap, problem string) {
 	snap = Snap{}
+	total, entries := 0, 0
 	defer func() {
 		if r := recover(); r != nil {
 			problem = fmt.Sprint("panic during walk: ", r)
@@ -39,6 +40,13 @@ func Snapshot(fsys hackpadfs.FS, mt MTimeSet) (snap Snap, problem string) {
 				problem = fmt.Sprintf("walk %s: %v", p, err)
 			}
 			return nil
+		}
+		entries++
+		if entries > 200000 || total > 256<<20 {
+			if problem == "" {
+				problem = "tree too large to snapshot (more than 200000 entries or 256 MiB): the subject is not looking at the harness's tree"
+			}
+			return fs.SkipAll
 		}
 		info, serr := hackpadfs.Stat(fsys, p)
 		if serr != nil {
@@ -58,6 +66,7 @@ func Snapshot(fsys hackpadfs.FS, mt MTimeSet) (snap Snap, problem string) {
 			}
 			e.Size = info.Size()
 			e.Data = string(b)
+			total += len(b)
 		}
 		if mt != nil && mt[p] {
 			e.MTime = info.ModTime().UnixNano()
